@@ -155,7 +155,12 @@ class Driver(GenericAdapter):
     def observe(self, qs, got):
         if self.walk_mode:
             # (no copies: copying a queue is not among the promised operations) - what can be read without changing it
-            return {"per_class": [{"len": len(q), "peek": self.dec(q.peek(self.default))} for q in qs]}
+            def peek_(q):
+                try:
+                    return self.dec(q.peek(self.default))
+                except Exception as ex:             # (a default was given: nothing may be raised)
+                    return "raised:" + core.exc_name(ex)
+            return {"per_class": [{"len": len(q), "peek": peek_(q)} for q in qs]}
         return {"per_class": [{"len": len(q), "drain": self.drain(q)} for q in qs]}
 
     def compare(self, obs, pobs, st):
